@@ -59,62 +59,62 @@ const histRule = "adaptive random histories of work-tree edits and goit invocati
 	"a case is distinct by its recorded script"
 
 func init() {
-	checks["C03"] = histCheck("C03", []string{"C03.closed_put", "C03.writeTree_closed"}, histRule+"; hostile stream: ids of blobs/trees given to update-ref, names with '/', '..', resets to zero-id reflog entries",
+	checks["C03"] = histCheck("C03", []string{"C03.put_monotone", "C03.puts_monotone", "C03.put_present", "C03.name_is_hash", "C03.branch_target_present", "C10.add_invalid", "C19.get_returns_requested"}, histRule+"; hostile stream: ids of blobs/trees given to update-ref, names with '/', '..', resets to zero-id reflog entries",
 		func(ctx *Ctx) *HistCfg {
 			return &HistCfg{Prop: "C03", Cases: tierN(ctx, 150, 1500), MinSteps: 10, MaxSteps: 40,
 				W:       weights(Weights{"update-ref": 5, "branch": 4, "branch-rename": 3, "reset": 6, "junk": 6, "switch-c": 2}),
 				Oracles: []HistOracle{orC03}, PreReset: true}
 		})
-	checks["C04"] = histCheck("C04", []string{"C04.update_lookup", "C04.update_other", "C04.delete_lookup"}, histRule,
+	checks["C04"] = histCheck("C04", []string{"C04.update_membership", "C04.update_perm", "C04.update_same_noop", "C04.delete_exact", "C04.eraseIdx_canonical", "C04.sortEntries_sorted", "C06.getEntry_correct"}, histRule,
 		func(ctx *Ctx) *HistCfg {
 			return &HistCfg{Prop: "C04", Cases: tierN(ctx, 200, 2000), MinSteps: 8, MaxSteps: 30,
 				W:       weights(Weights{"add": 25, "rm": 12, "write": 20, "rmfile": 8, "rmdir": 4, "reset": 1, "junk": 0}),
 				Oracles: []HistOracle{orC04, orC06}, Idempotent: true}
 		})
-	checks["C02"] = histCheck("C02", []string{"C02.flatten_writeTree"}, histRule,
+	checks["C02"] = histCheck("C02", []string{"C02.flatten_writeTree", "C02.build_ne_nil", "C02.subtrees_wellformed", "C05.walk_encode", "C01.get_put"}, histRule,
 		func(ctx *Ctx) *HistCfg {
 			return &HistCfg{Prop: "C02", Cases: tierN(ctx, 200, 2000), MinSteps: 8, MaxSteps: 30,
 				W:       weights(Weights{"commit": 20, "add": 18, "add-all": 6, "junk": 0}),
 				Oracles: []HistOracle{orC02}}
 		})
-	checks["C07"] = histCheck("C07", []string{"C07.diff_nil_iff"}, histRule,
+	checks["C07"] = histCheck("C07", []string{"C07.diff_fromTree", "C07.diff_fromTree_build", "C07.fromTree_nil_iff", "C07.fold_ok", "C06.getEntry_correct"}, histRule,
 		func(ctx *Ctx) *HistCfg {
 			return &HistCfg{Prop: "C07", Cases: tierN(ctx, 200, 2000), MinSteps: 8, MaxSteps: 30,
 				W:       weights(Weights{"commit": 16, "status": 14, "add": 18, "rm": 6, "restore": 6, "junk": 0}),
 				Oracles: []HistOracle{orC07}, StatusAfterCommit: true}
 		})
-	checks["C08"] = histCheck("C08", []string{"C08.resetArg_accepts_iff"}, histRule+"; before every reset the `reflog` listing is sampled",
+	checks["C08"] = histCheck("C08", []string{"C08.accepts", "C08.accepts_number", "C08.accepted_shape", "C08.position_agrees", "C08.out_of_range_refused", "C08.mode_table"}, histRule+"; before every reset the `reflog` listing is sampled",
 		func(ctx *Ctx) *HistCfg {
 			return &HistCfg{Prop: "C08", Cases: tierN(ctx, 200, 2000), MinSteps: 10, MaxSteps: 35,
 				W:       weights(Weights{"commit": 16, "reset": 14, "switch": 3, "switch-c": 2, "rmdir": 4, "rmfile": 5, "junk": 0}),
 				Oracles: []HistOracle{orC08}, PreReset: true}
 		})
-	checks["C09"] = histCheck("C09", []string{"C09.placeholder"}, histRule,
+	checks["C09"] = histCheck("C09", []string{"C06.isDir_iff", "C06.mem_byDir", "C06.getEntry_correct", "C04.update_membership", "C04.delete_exact"}, histRule,
 		func(ctx *Ctx) *HistCfg {
 			return &HistCfg{Prop: "C09", Cases: tierN(ctx, 200, 2000), MinSteps: 10, MaxSteps: 35,
 				W:       weights(Weights{"restore": 20, "commit": 8, "rmfile": 8, "rmdir": 5, "write": 16, "add": 14, "rm": 4, "junk": 0}),
 				Oracles: []HistOracle{orC09}}
 		})
-	checks["C10"] = histCheck("C10", []string{"C10.placeholder"}, histRule,
+	checks["C10"] = histCheck("C10", []string{"C10.getBranchPos_correct", "C10.add_ok", "C10.add_dup", "C10.add_invalid", "C10.delete_ok", "C10.delete_current_refused", "C10.delete_unknown_refused", "C10.update_ok", "C10.update_unknown_refused", "C10.rename_ok", "C10.rename_dup_refused"}, histRule,
 		func(ctx *Ctx) *HistCfg {
 			return &HistCfg{Prop: "C10", Cases: tierN(ctx, 250, 2500), MinSteps: 10, MaxSteps: 40,
 				W: weights(Weights{"branch": 10, "branch-rename": 6, "branch-delete": 6, "branch-list": 4, "switch": 8, "switch-c": 5, "update-ref": 6,
 					"rev-parse": 6, "commit": 8, "reset": 2, "write": 8, "add": 6, "restore": 0, "rm": 1, "junk": 1}),
 				Oracles: []HistOracle{orC10}}
 		})
-	checks["C13"] = histCheck("C13", []string{"C13.placeholder"}, histRule,
+	checks["C13"] = histCheck("C13", []string{"C01.encode_injective", "C06.getEntry_correct", "C17.nothing_hidden_without_ignore"}, histRule,
 		func(ctx *Ctx) *HistCfg {
 			return &HistCfg{Prop: "C13", Cases: tierN(ctx, 200, 2000), MinSteps: 8, MaxSteps: 30,
 				W:       weights(Weights{"status": 18, "write": 18, "rewrite-same": 6, "touch": 4, "rmfile": 8, "rmdir": 4, "mkdir": 2, "ignore": 3, "commit": 8, "add": 12, "junk": 0}),
 				Oracles: []HistOracle{orC13}, CommitFirst: true}
 		})
-	checks["C14"] = histCheck("C14", []string{"C14.placeholder"}, histRule,
+	checks["C14"] = histCheck("C14", []string{"C14.log_chain", "C14.log_nonpos"}, histRule,
 		func(ctx *Ctx) *HistCfg {
 			return &HistCfg{Prop: "C14", Cases: tierN(ctx, 150, 1500), MinSteps: 15, MaxSteps: 60,
 				W:       weights(Weights{"commit": 25, "log": 14, "add-all": 10, "write": 20, "reset": 4, "switch": 3, "switch-c": 3, "restore": 0, "rm": 1, "junk": 0}),
 				Oracles: []HistOracle{orC14}}
 		})
-	checks["C17"] = histCheck("C17", []string{"C17.placeholder"}, histRule,
+	checks["C17"] = histCheck("C17", []string{"C17.matches_dir", "C17.matches_ext", "C17.nothing_hidden_without_ignore", "C17.meta_always"}, histRule,
 		func(ctx *Ctx) *HistCfg {
 			return &HistCfg{Prop: "C17", Cases: tierN(ctx, 200, 2000), MinSteps: 8, MaxSteps: 30,
 				W:       weights(Weights{"ignore": 6, "add": 20, "add-all": 10, "status": 10, "write": 20, "commit": 5, "reset": 2, "restore": 2, "junk": 0}),
@@ -123,19 +123,19 @@ func init() {
 					return []string{"a", "build", "mybuild", "x.log", "y.tmp", "z.c", "src", "out", "a.goit", "my.goit", "log", "b.o"}
 				}}
 		})
-	checks["C18"] = histCheck("C18", []string{"C18.placeholder"}, histRule+"; malformed and refused invocations are weighted up",
+	checks["C18"] = histCheck("C18", []string{"C18.getEntry_never_crashes", "C18.getBranchPos_never_crashes", "C18.update_never_crashes", "C18.delete_never_crashes", "C18.get_never_crashes", "C19.decodeEntries_bounded"}, histRule+"; malformed and refused invocations are weighted up",
 		func(ctx *Ctx) *HistCfg {
 			return &HistCfg{Prop: "C18", Cases: tierN(ctx, 250, 3000), MinSteps: 5, MaxSteps: 40,
 				W:       weights(Weights{"junk": 14, "status": 5, "reflog": 4, "log": 3, "branch-rename": 4, "reset": 6, "rm": 6, "restore": 6}),
 				Oracles: []HistOracle{orC18}, NoIdent: 15}
 		})
-	checks["C20"] = histCheck("C20", []string{"C20.placeholder"}, histRule,
+	checks["C20"] = histCheck("C20", []string{"C20.parse_render", "C20.add_get", "C20.local_overrides_global", "C20.global_fallback", "C20.isUserSet_iff"}, histRule,
 		func(ctx *Ctx) *HistCfg {
 			return &HistCfg{Prop: "C20", Cases: tierN(ctx, 200, 2000), MinSteps: 6, MaxSteps: 25,
 				W:       Weights{"config": 30, "commit": 10, "write": 10, "add-all": 8, "status": 1},
 				Oracles: []HistOracle{orC20}, NoIdent: 60}
 		})
-	checks["C12"] = histCheck("C12", []string{"C12.placeholder"}, histRule+"; every invocation runs under a generated TZif file for an offset drawn from all quarter hours in [-12:00,+14:00]",
+	checks["C12"] = histCheck("C12", []string{"C12.zone_table", "C12.parse_format", "C12.parse_format_quarter", "C12.email_chars"}, histRule+"; every invocation runs under a generated TZif file for an offset drawn from all quarter hours in [-12:00,+14:00]",
 		func(ctx *Ctx) *HistCfg {
 			var tzs []int
 			for o := -12 * 3600; o <= 14*3600; o += 900 {
@@ -146,20 +146,20 @@ func init() {
 				Oracles:  []HistOracle{orC12},
 				Messages: genMessage}
 		})
-	checks["C11"] = histCheck("C11", []string{"C11.placeholder"}, histRule+"; `reflog` is run after every commit/switch/reset/rename and compared with the listing before",
+	checks["C11"] = histCheck("C11", []string{"C11.parseLine_format", "C11.parse_append", "C11.parseLines_snoc", "C11.get_agrees_with_listing", "C11.get_append_zero", "C11.get_append_succ", "C11.get_out_of_range"}, histRule+"; `reflog` is run after every commit/switch/reset/rename and compared with the listing before",
 		func(ctx *Ctx) *HistCfg {
 			return &HistCfg{Prop: "C11", Cases: tierN(ctx, 200, 2000), MinSteps: 10, MaxSteps: 35, TZs: []int{0, 19800, -12600, 3600},
 				W: weights(Weights{"commit": 18, "switch": 6, "switch-c": 4, "reset": 8, "branch-rename": 3, "branch-delete": 2, "branch": 3, "reflog": 4,
 					"write": 12, "add-all": 8, "restore": 0, "rm": 0, "junk": 0}),
 				Oracles: []HistOracle{orC08}, PreReset: true, ReflogAfter: true, Messages: genMessage}
 		})
-	checks["C05"] = histCheck("C05", []string{"C05.walk_encode"}, histRule+"; after every commit `cat-file -p` is run on every tree of the snapshot, and `reset --mixed` + `ls-files -s` read snapshots back",
+	checks["C05"] = histCheck("C05", []string{"C05.walk_encode", "C05.walk_empty", "C05.render_children", "C05.loop_encode", "C02.flatten_writeTree"}, histRule+"; after every commit `cat-file -p` is run on every tree of the snapshot, and `reset --mixed` + `ls-files -s` read snapshots back",
 		func(ctx *Ctx) *HistCfg {
 			return &HistCfg{Prop: "C05", Cases: tierN(ctx, 200, 2000), MinSteps: 8, MaxSteps: 30,
 				W:       weights(Weights{"commit": 18, "add-all": 8, "add": 14, "rm": 6, "reset": 8, "ls-files": 6, "cat-file": 6, "write": 18, "junk": 0}),
 				Oracles: []HistOracle{orC05, orC08}, PreReset: true, CatTrees: true}
 		})
-	checks["C06"] = histCheck("C06", []string{"C06.decode_encode", "C06.getEntry_correct"}, histRule,
+	checks["C06"] = histCheck("C06", []string{"C06.decode_encode", "C06.getEntry_correct", "C06.isDir_iff", "C06.mem_byDir", "C06.byDir_sublist", "C04.eraseIdx_canonical", "C04.sortEntries_sorted"}, histRule,
 		func(ctx *Ctx) *HistCfg {
 			return &HistCfg{Prop: "C06", Cases: tierN(ctx, 150, 1500), MinSteps: 8, MaxSteps: 30,
 				W:       weights(Weights{"add": 20, "rm": 10, "restore": 10, "reset": 4, "commit": 8, "write": 16, "rmdir": 4, "junk": 0}),
@@ -186,6 +186,6 @@ func init() {
 	} {
 		checks[prop].Gen = g
 	}
-	checks["C19"] = &Check{Prop: "C19", Gen: genC19, Impl: runImplAPI, Theorems: []string{"C19.placeholder"},
+	checks["C19"] = &Check{Prop: "C19", Gen: genC19, Impl: runImplAPI, Theorems: []string{"C19.get_crash_iff", "C19.get_returns_requested", "C19.parse_ne_undefined", "C19.decodeEntries_bounded", "C19.lookups_never_crash"},
 		Rule: "valid files produced for the test (objects, trees, commits, index, HEAD, branch files, config, reflog) and every thinned truncation, random single-byte deletions and substitutions (0x00 0x0a 0x20 0x2f 0xff digits, +-1), swapped and self-referential object files, header corner cases; each decoder is called in-process under recover and must answer ok/err exactly like the model"}
 }
